@@ -176,3 +176,24 @@ Theorem C03_io_refinement_any_store :
     end.
 Proof. exact io_refinement_any_store. Qed.
 Print Assumptions C03_io_refinement_any_store.
+
+(* several handles, from ANY initial chunk store *)
+Theorem C03_handles_read_any_store :
+  forall (info chunk bytes : Type) (scales_of : info -> list scale) (check_info : info -> outcome unit)
+         (encode : info -> list N -> chunk -> outcome bytes)
+         (decode : info -> list N -> bytes -> triple -> outcome chunk) (shape_of : chunk -> triple)
+         ops (st : hstate info bytes) i h j k c,
+  (forall k ch b, encode i k ch = Ok b -> decode i k b (shape_of ch) = Ok ch) ->
+  Forall (no_overwrite info chunk) ops -> Forall (hwell_shaped info chunk shape_of) ops ->
+  agree info bytes st -> h_info st = Some i ->
+  nth_error (h_handles (fst (hrun info chunk bytes scales_of check_info encode decode st ops))) h = Some j ->
+  check_valid (scales_of i) k c = Ok tt ->
+  read_chunk chunk bytes (decode j) (scales_of j)
+    (h_chunks (fst (hrun info chunk bytes scales_of check_info encode decode st ops))) k c
+  = match last_written chunk bytes (encode i) (scales_of i)
+            (proj info chunk check_info i (length (h_handles st)) ops) k c None with
+    | Some ch => Ok ch
+    | None => read_chunk chunk bytes (decode i) (scales_of i) (h_chunks st) k c
+    end.
+Proof. exact handles_read_any_store. Qed.
+Print Assumptions C03_handles_read_any_store.
